@@ -704,6 +704,7 @@ func GenericHpairFunction(env *Zlisp, name string, args []Sexp) (Sexp, error) {
 func (h *SexpHash) FillHashFromShadow(env *Zlisp, src interface{}) error {
 	//Q("in FillHashFromShadow, with src = %#v", src)
 	h.GoShadowStruct = src
+	h.GoShadowStructVa = reflect.ValueOf(src)
 	h.ShadowSet = true
 	vaSrc := reflect.ValueOf(src).Elem()
 
